@@ -4,9 +4,11 @@ from . import gencommon as gc
 LEVEL = "exploration"
 TECHNIQUE = ("deterministic simulation: every rng.choice is a scheduled event whose probability vector is compared with the "
              "reference model's law for that decision; outcomes are chosen independently of their probability")
-RULE = ("each run = one input x one seeded schedule; every decision (kept or discarded work) must equal a decision template the "
+RULE = ("92 % of runs: one input x one seeded schedule; every decision (kept or discarded work) must equal a decision template the "
         "model derives from the AST for the live state (open pick, partner pick, list transition, start, reservation, capping, "
-        "hand-over); distinct = hash of (input, decision sequence); non-trivial = at least 3 multi-option decisions")
+        "hand-over); distinct = hash of (input, decision sequence); non-trivial = at least 3 multi-option decisions.  8 % of runs: a bounded instance (targets forced to 0.5 / 1.5 units) "
+        "whose every choice sequence is enumerated depth-first through the real code (<= 800 paths, else counted as truncated) and the "
+        "summed path probabilities per product compared with the exact law of an independent reference generator")
 ASSUMPTIONS = gc.ASSUMPTIONS_COMMON + [
     "a decision is identified by its content (option count, probability vector, probability of the option taken), not by its "
     "position in the call sequence; option order may be permuted (probe permuted_option_order stays 0 on this tree)",
@@ -20,12 +22,131 @@ def plan(tier):
     return 2400 if tier == "quick" else 40000
 
 
+ENUM_SHARE = 0.08
+MAX_PATHS = 800
+
+
 def spec_from_seed(run_seed, tier):
+    import random
+
+    rnd = random.Random(run_seed ^ 0x5EED)
+    if rnd.random() < ENUM_SHARE:
+        # bounded instance: every choice sequence of the real code is enumerated (systematic complement, see module doc)
+        spec = gc.make_spec(run_seed, tier, "C08", forced_prob=0.0, allow_illposed=False, corpus_prob=0.0,
+                            archetype=rnd.choice(["linear_directed", "linear_directed", "undirected", "step_growth", "alternating_ids",
+                                                  "multiblock", "end_transition", "branched_lists", "star"]))
+        spec["kind"] = "enumerate"
+        spec["target_units"] = rnd.choice([0.53, 1.57, 1.57, 2.61])  # never a multiple of a unit mass: ties depend on float rounding
+        spec["embed"] = "stub"
+        return spec
     return gc.make_spec(run_seed, tier, "C08", choice_weights=[3, 3, 3, 1, 1, 3, 1, 1], forced_prob=0.1)
 
 
 def execute(spec):
+    if spec.get("kind") == "enumerate":
+        return execute_enumeration(spec)
     return gc.execute(spec, PROPS)
 
 
-shrink_candidates = gc.shrink_candidates
+def execute_enumeration(spec):
+    """All choice sequences of the real generator for a bounded instance (targets forced to <= 2 units) against the exact
+    law of the independent reference generator (refgen.py).  Black-box: uses only rng.choice's probability vectors and the
+    returned SMILES, not the attach / instance seams."""
+    import hashlib
+    import json
+
+    from .. import genrun, reader, refgen, wellposed
+    from ..notation import Stoch
+
+    text = spec["text"]
+    try:
+        ast = reader.read_molecule(text).build()
+    except Exception as exc:
+        return {"harness_error": f"reader failed: {exc!r}", "violations": []}
+    stats = {"runs": 1, "enumeration_runs": 1, "paths": 0}
+    ok, why = wellposed.analyse(ast)
+    if not ok:
+        stats["enumeration_skipped_illposed"] = 1
+        return {"violations": [], "stats": stats, "sig": None, "nontrivial": False, "sample": {"input": text, "skipped": why}, "digest": None, "trace": None}
+    targets = []
+    for e in ast.elements:
+        if isinstance(e, Stoch):
+            m = min(t.mass for t in e.repeats)
+            targets.append(spec["target_units"] * max(m, 1.0) + 0.0137)
+    try:
+        law = refgen.exact_law(ast, targets)
+    except (refgen.Stuck, OverflowError, RecursionError) as exc:
+        stats["enumeration_skipped_reference"] = 1
+        return {"violations": [], "stats": stats, "sig": None, "nontrivial": False, "sample": {"input": text, "skipped": repr(exc)}, "digest": None, "trace": None}
+    # depth-first over the decision tree of the real code
+    real = {}
+    prefix = []
+    digests = []
+    n_paths = 0
+    complete = True
+    while True:
+        sched = dict(spec["sched"])
+        sched.update({"choice_policy": "first", "draw_policy": "natural", "script": list(prefix), "budget": 4000})
+        out = genrun.run_molecule(text, sched, props=(), embed="stub", forced_draws=list(targets), wall=60, ast=ast)
+        if out.harness_error:
+            return {"harness_error": out.harness_error, "violations": []}
+        n_paths += 1
+        decs = [e for e in out.world.log if e["k"] == "dec" and e.get("kind") == "choice" and not e.get("in_draw")]
+        prob = 1.0
+        path = []
+        for d in decs:
+            support = [i for i, x in enumerate(d["p"]) if x > 0]
+            path.append((support, d["i"]))
+            prob *= d["p"][d["i"]]
+        key = out.smiles if out.exc is None and out.smiles else "exception:" + type(out.exc).__name__
+        real[key] = real.get(key, 0.0) + prob
+        digests.append(out.world.digest())
+        # next path: advance the last decision that still has an untried option
+        nxt = None
+        for j in range(len(path) - 1, -1, -1):
+            support, chosen = path[j]
+            r = support.index(chosen)
+            if r + 1 < len(support):
+                nxt = [c for (_, c) in path[:j]] + [support[r + 1]]
+                break
+        if nxt is None:
+            break
+        if n_paths >= MAX_PATHS:
+            complete = False
+            break
+        prefix = nxt
+    stats["paths"] = n_paths
+    viols = []
+    feats = sorted(spec.get("tags", []))
+    if complete:
+        stats["enumerations_complete"] = 1
+        keys = set(real) | set(law)
+        total = sum(real.values())
+        if abs(total - 1.0) > 1e-9:
+            viols.append({"property": "C08", "invariant": "path_probabilities_do_not_sum_to_one",
+                          "msg": f"the probabilities handed to the generator along all {n_paths} choice sequences sum to {total!r}", "features": feats, "input": text})
+        for k in sorted(keys):
+            a, b = real.get(k, 0.0), law.get(k, 0.0)
+            if abs(a - b) > 1e-9 + 1e-9 * max(a, b):
+                viols.append({"property": "C08", "invariant": "exact_molecule_probability",
+                              "msg": f"targets {targets}: molecule {k!r} is produced with probability {a!r} over all choice sequences; the notation gives {b!r}",
+                              "features": feats, "input": text})
+                break
+    else:
+        stats["enumerations_truncated"] = 1
+    sig = hashlib.sha1(json.dumps([text, targets, "enum"]).encode()).hexdigest()
+    sample = {"kind": "enumerate", "input": text, "targets": targets, "paths": n_paths, "complete": complete, "products": len(real)}
+    dg = hashlib.sha256("".join(digests).encode()).hexdigest()
+    return {"violations": viols, "stats": stats, "sig": sig, "nontrivial": complete and n_paths >= 4, "sample": sample, "digest": dg, "trace": None}
+
+
+def shrink_candidates(spec):
+    if spec.get("kind") == "enumerate":
+        import json
+
+        for t in gc.simpler_texts(spec["text"]):
+            c = json.loads(json.dumps(spec))
+            c["text"] = t
+            yield c
+        return
+    yield from gc.shrink_candidates(spec)
